@@ -100,7 +100,7 @@ W = [
  ("fs:head-missing-key-code", [mb(), head("a")],
   "head_object of a missing key answers NoSuchBucket instead of NoSuchKey"),
  ("fs:missing-bucket-reported-as-missing-key", [get("a")],
-  "get_object/delete_object/copy source in a bucket that does not exist answer NoSuchKey instead of NoSuchBucket"),
+  "get_object/delete_object/copy source (copy_object, upload_part_copy) in a bucket that does not exist answer NoSuchKey instead of NoSuchBucket (delete_object: repaired by fe75a0e)"),
  ("fs:delete-objects-omits-missing-keys", [mb(), put("a", 1, 10), dels(["a", "b"])],
   "delete_objects reports only keys that existed as Deleted; S3 reports every requested key"),
  ("fs:delete-objects-in-missing-bucket", [dels(["a"])],
@@ -124,9 +124,10 @@ FIXED = {
  "fs:head-missing-key-code": "d6f1a3c",
  "fs:delete-nonempty-bucket": "dbc4627",
  "fs:delete-missing-key-error": "fe75a0e",
+ "fs:missing-bucket-reported-as-missing-key": "391a940",
 }
 # repairs whose text says explicitly that it describes the code before the repair
-BEFORE = {"fs:head-missing-key-code", "fs:delete-missing-key-error"}
+BEFORE = {"fs:head-missing-key-code", "fs:delete-missing-key-error", "fs:missing-bucket-reported-as-missing-key"}
 
 lines, findings = [], []
 for i, (cls, ops, what) in enumerate(W, 1):
